@@ -79,6 +79,9 @@ def parse_stats(out):
     st = {}
     m = re.search(r"(\d+) states generated, (\d+) distinct states found", out)
     if m: st["generated"] = int(m.group(1)); st["distinct"] = int(m.group(2))
+    else:   # run cut short by the time limit: take the last progress report
+        pm = re.findall(r"Progress\(\d+\) at [^:]*:\d+:\d+: ([\d,]+) states generated[^,]*, ([\d,]+) distinct states found", out)
+        if pm: st["generated"] = int(pm[-1][0].replace(",", "")); st["distinct"] = int(pm[-1][1].replace(",", "")); st["partial"] = True
     m = re.search(r'<<"maxl", (\d+), (\d+), (\d+)>>', out)
     if m: st["maxl"] = int(m.group(1)); st["nl"] = int(m.group(2)); st["pviol"] = int(m.group(3))
     m = re.search(r"Invariant (\w+) is violated", out)
